@@ -318,6 +318,7 @@ class Seg:
     g: Any  # bound z3 Int const
     cond: Any  # z3 Bool over g
     mapv: V  # value over g
+    outer: tuple = ()  # enclosing iteration frames (lid, pidx, hi, g, cond), outermost first: a nested comprehension
 
 
 @dataclass
